@@ -186,6 +186,7 @@ def verify_function1(ex, c, prop, case):
     for v in env.values():
         collect_consts(v, st, inputs, seen)
     inputs0 = inputs
+    env = dict(env)      # entry bindings of the parameters (st.env is rebound by assignments in the body)
     pre = st.fork()
     pre_env = SpecEnv(pre, dict(env))
     fr = Frame(mod, pycls, c.qualname, node, c.file, contract=c, depth=0)
@@ -275,6 +276,9 @@ def verify_function1(ex, c, prop, case):
                                      'cover', {'exit': v.cls.__name__}, inputs))
         else:
             raise Unsupported('%s escaped function %s' % (k, c.qualname))
+    for why, pc_, tr in getattr(ex, 'subset_obls', []):
+        fres.obls.append(Obl(prop, c.qualname, why, tr[:60] or '-', pc_, z3.BoolVal(False), 'subset', {}, inputs0))
+    ex.subset_obls = []
     fres.bounded = list(ex.bounded)
     ex.bounded = []
     fres.seconds = time.time() - t0
@@ -343,6 +347,12 @@ def smt_name(n):
     return '|%s|' % n
 
 
+def slice_direct(assumptions, goal):
+    """only the assumptions that share a symbol with the goal itself (one step)"""
+    gs = consts_and_funcs([goal])
+    return [a for a in assumptions if consts_and_funcs([a]) & gs]
+
+
 def slice_assumptions(assumptions, goal):
     """cone of influence: keep the assumptions that (transitively) share a symbol with the goal.
     Dropping assumptions only weakens the hypothesis, so `unsat` for the slice is a proof."""
@@ -385,6 +395,7 @@ def discharge(obls, budget=10.0, workers=None):
     everything else: assumptions and not goal expected UNSAT; first on the cone-of-influence
     slice of the assumptions, then (if that is not unsat) on all of them."""
     jobs = []
+    staged = []
     for ob in obls:
         if ob.verdict is not None and ob.kind == 'enumerated':
             continue
@@ -401,19 +412,32 @@ def discharge(obls, budget=10.0, workers=None):
             ob.verdict = 'unsat'
             ob.backend = 'simplify'
             continue
+        stages = []
+        sd = slice_direct(list(ob.assumptions), ob.goal)
         sl = slice_assumptions(list(ob.assumptions), ob.goal)
+        if len(sd) < len(sl):
+            stages.append(('#direct', sd))
         if len(sl) < len(ob.assumptions):
-            jobs.append((ob, (ob.full + '#slice', smt.to_smt2(sl + [z3.Not(ob.goal)], []), False, False), True))
-        else:
-            jobs.append((ob, _full_job(ob), False))
-    results = smt.solve_many([j[1] for j in jobs], budget=budget, workers=workers)
-    retry = []
-    for (ob, _, sliced), r in zip(jobs, results):
-        ob.seconds += r['seconds']
-        if sliced and r['verdict'] != 'unsat':
-            retry.append(ob)
+            stages.append(('#slice', sl))
+        staged.append((ob, stages))
+    # stage by stage: smaller hypothesis sets first (unsat there is a proof), the full set last
+    pending = staged
+    for level in range(2):
+        batch = [(ob, st[level]) for ob, st in pending if len(st) > level]
+        if not batch:
             continue
-        _record(ob, r, ' (sliced)' if sliced else '')
+        res = smt.solve_many([(ob.full + tag, smt.to_smt2(asm + [z3.Not(ob.goal)], []), False, False) for ob, (tag, asm) in batch],
+                             budget=min(budget, 12.0), workers=workers)
+        for (ob, (tag, _)), r in zip(batch, res):
+            ob.seconds += r['seconds']
+            if r['verdict'] == 'unsat':
+                _record(ob, r, ' (%s)' % tag[1:])
+        pending = [(ob, st) for ob, st in pending if ob.verdict != 'unsat']
+    retry = [ob for ob, _ in pending if ob.verdict != 'unsat']
+    results = smt.solve_many([j[1] for j in jobs], budget=budget, workers=workers)
+    for (ob, _, _), r in zip(jobs, results):
+        ob.seconds += r['seconds']
+        _record(ob, r, '')
     if retry:
         results = smt.solve_many([_full_job(ob) for ob in retry], budget=budget, workers=workers)
         for ob, r in zip(retry, results):
